@@ -126,6 +126,7 @@ class Ctx(object):
         self.excluded = Counter()
         self.nontrivial = set()
         self.samples = []
+        self.auto_samples = []  # cases kept by the engine when the property itself samples nothing
         self.maxima = {}       # name -> (value, case-summary)
         self.values = {}       # name -> list of floats (pooled statistics)
         self.frozen = False
@@ -172,7 +173,7 @@ class Ctx(object):
     def dump(self):
         return dict(evaluations=self.evaluations, classes=dict(self.classes),
                     skips=dict(self.skips), excluded=dict(self.excluded),
-                    nontrivial=sorted(self.nontrivial), samples=self.samples,
+                    nontrivial=sorted(self.nontrivial), samples=self.samples or self.auto_samples,
                     maxima={k: list(v) for k, v in self.maxima.items()},
                     values=self.values)
 
@@ -239,6 +240,8 @@ def run_case(prop, case, ctx, findings):
         raise
     if not ctx.frozen:
         ctx.evaluations += 1
+        if not ctx.samples and len(ctx.auto_samples) < 2:
+            ctx.auto_samples.append(jsonable(prop.summary(case)))
     return 'ok'
 
 
